@@ -33,7 +33,7 @@ class FortranRegularExpressions:
     SUB: Pattern = compile(r"[ ]*SUBROUTINE[ ]+(\w+)", I)
     END_SUB: Pattern = compile(r"SUBROUTINE", I)
     FUN: Pattern = compile(r"[ ]*FUNCTION[ ]+(\w+)", I)
-    RESULT: Pattern = compile(r"RESULT[ ]*\((\w*)\)", I)
+    RESULT: Pattern = compile(r"RESULT[ ]*\([ ]*(\w*)[ ]*\)", I)
     END_FUN: Pattern = compile(r"FUNCTION", I)
     MOD: Pattern = compile(r"[ ]*MODULE[ ]+(\w+)", I)
     END_MOD: Pattern = compile(r"MODULE", I)
@@ -74,7 +74,7 @@ class FortranRegularExpressions:
         I,
     )
     TYPE_DEF: Pattern = compile(r"[ ]*(TYPE)[, :]+", I)
-    EXTENDS: Pattern = compile(r"EXTENDS[ ]*\((\w*)\)", I)
+    EXTENDS: Pattern = compile(r"EXTENDS[ ]*\([ ]*(\w*)[ ]*\)", I)
     GENERIC_PRO: Pattern = compile(
         r"[ ]*(GENERIC)[, ]*(PRIVATE|PUBLIC)?[ ]*::[ ]*[a-z]", I
     )
@@ -102,7 +102,7 @@ class FortranRegularExpressions:
         r"\w*[\s\&]*=(([\s\&]*(?:\'[^\']*\'|\"[^\"]*\"|[\w\.\-\+\*\/\'\"]))*)", I
     )
     TATTR_LIST: Pattern = compile(
-        r"[ ]*,[ ]*(PUBLIC|PRIVATE|ABSTRACT|EXTENDS\(\w*\))", I
+        r"[ ]*,[ ]*(PUBLIC|PRIVATE|ABSTRACT|EXTENDS[ ]*\([ ]*\w*[ ]*\))", I
     )
     VIS: Pattern = compile(r"[ ]*\b(PUBLIC|PRIVATE)\b", I)
     WORD: Pattern = compile(r"[a-z_][\w\$]*", I)
